@@ -6,8 +6,10 @@ import (
 	"encoding/json"
 	"fmt"
 	"io"
+	"runtime"
 	"strings"
 	"sync"
+	"sync/atomic"
 	"testing/synctest"
 	"time"
 
@@ -186,6 +188,25 @@ type srvRun struct {
 	nops    int
 	waiting int
 	faults  []string
+
+	// racing mode (policy "race"): no scheduler, environment actions are not separated by
+	// quiescence, the hook points only perturb the Go scheduler; quiet turns waiting back on
+	race, quiet bool
+	perturb     atomic.Uint64
+}
+
+// racePoint is the hook of racing mode: yield at a pseudo-random subset of the points.
+func (r *srvRun) racePoint(site string) {
+	x := r.perturb.Add(0x9e3779b97f4a7c15)
+	x ^= x >> 29
+	switch x % 4 {
+	case 0:
+		runtime.Gosched()
+	case 1:
+		runtime.Gosched()
+		runtime.Gosched()
+		runtime.Gosched()
+	}
 }
 
 func (r *srvRun) handler(ctx context.Context, req *jrpc2.Request) (any, error) {
@@ -241,6 +262,9 @@ func newSrvRun(cfg srvConfig, out *bufio.Writer) *srvRun {
 // settleEnv waits for quiescence after an environment action and flushes the
 // window's observations.
 func (r *srvRun) settleEnv() {
+	if r.race && !r.quiet {
+		return
+	}
 	synctest.Wait()
 	r.log.flush()
 }
@@ -248,6 +272,7 @@ func (r *srvRun) settleEnv() {
 func (r *srvRun) start() {
 	r.ch = newFchan(r.log, r.cfg.unblock)
 	r.ch.tryLock = r.srv.VerifTryLock
+	r.ch.widen = r.race
 	r.chans = append(r.chans, r.ch)
 	r.log.item("env\tstart")
 	r.srv.Start(r.ch)
@@ -317,7 +342,12 @@ func (r *srvRun) gate(p string, m gateMsg) {
 		}
 	}
 	r.mu.Unlock()
-	if m.code != 0 {
+	if m.code == 0 && !json.Valid([]byte(m.res)) {
+		// the handler returns a value json.Marshal rejects: by the library's contract this is the
+		// same as the handler failing with that marshalling error (code by ErrorCode)
+		_, merr := json.Marshal(json.RawMessage(m.res))
+		r.log.item("env\tgate\t%s\terr\t%d\t%s", hexf([]byte(p)), int(jrpc2.ErrorCode(merr)), hexf([]byte(merr.Error())))
+	} else if m.code != 0 {
 		r.log.item("env\tgate\t%s\terr\t%d\t%s", hexf([]byte(p)), m.code, hexf([]byte(m.msg)))
 	} else {
 		r.log.item("env\tgate\t%s\tres\t%s", hexf([]byte(p)), hexf([]byte(m.res)))
